@@ -782,6 +782,19 @@ def pred_dup_cds(spec, clause, detail):
     return False
 
 
+def _ex_gene(strand, cds, frames, exons):
+    return {"transcripts": [{"exons": exons, "strand": strand, "cds": cds, "frames": frames, "offset": 0, "frameshift": True, "transcript_id": "g0t0", "transcript_symbol": "ts0",
+                             "transcript_type": "protein_coding", "protein_id": "p0", "product": None, "qualifiers": {}}],
+            "gene_id": "gene0", "gene_symbol": "SYM0", "gene_type": "protein_coding", "locus_tag": "LT0", "qualifiers": {}}
+
+
+# programmed frameshifts whose CDS rows all carry phase 0 (frames all ZERO although a block before the last one is not a multiple
+# of three long): the written phases are the annotation, not something to re-derive from the block lengths
+EX_REPARSE = [
+    {"obj": {"genes": [_ex_gene("+", [[2, 12], [16, 25]], [0, 0], [[0, 12], [16, 28]])], "feature_collections": [], "name": None}, "genome": "ACGT" * 8, "fasta": True, "chunk_mode": False},
+    {"obj": {"genes": [_ex_gene("-", [[2, 12], [16, 24]], [0, 0], [[0, 12], [16, 28]])], "feature_collections": [], "name": None}, "genome": "ACGT" * 8, "fasta": False, "chunk_mode": False},
+]
+
 PROP = Prop(
     pid="C11",
     legs=[
@@ -796,7 +809,7 @@ PROP = Prop(
         Leg("multi_sequence", check_multi, strategy=strat_multi, n_quick=120, n_thorough=1500, shards_quick=4,
             must_hit=["collections_given_out_of_name_order", "unordered", "with_fasta"],
             rule="2..3 collections on differently named sequences written into ONE file (ordered / unordered, +-FASTA): one block of rows per sequence in the documented order, each block equal to its collection's rows and ordered by start, IDs unique and Parents resolving over the whole file, one FASTA record and sequence-region directive per sequence"),
-        Leg("reparse", check_reparse, strategy=strat_reparse, n_quick=70, n_thorough=700, shards_quick=8,
+        Leg("reparse", check_reparse, strategy=strat_reparse, examples=EX_REPARSE, n_quick=70, n_thorough=700, shards_quick=8,
             must_hit=["tx_biotype!=gene_biotype", "zero_gap_cds", "lookalike_key", "with_fasta", "untyped_isoform_next_to_one_of_another_biotype"],
             rule="1..3 genes (1..3 isoforms, coding/non-coding, offsets, 0-bp-gap CDS, transcript biotype equal to or different from the gene's), qualifier values without comma/double quote; export -> parse_standard_gff3 / parse_gff3_embedded_fasta -> compare -> re-export"),
         Leg("attributes", check_attributes, strategy=strat_attributes, n_quick=2500, n_thorough=50000,
